@@ -18,7 +18,7 @@ sys.path.insert(0, os.environ.get("VERIF_REPO", "/repo"))
 
 from . import engine, frames as F, tlc  # noqa: E402
 from .engine import Run  # noqa: E402
-from .tables import TableSet, entry, listing  # noqa: E402
+from .tables import KNOWN_TYPES, TableSet, entry, listing  # noqa: E402
 
 SIZE = {"Voltage": 2, "Current": 2, "CurrentS": 2, "Frequency": 2, "Power": 2, "PowerS": 2, "Energy": 2, "Apparent": 2,
         "Reactive": 2, "Temp": 2, "CellVoltage": 2, "Integer": 2, "IntegerS": 2, "Decimal": 2, "Enum2": 2, "Byte": 1,
@@ -239,6 +239,9 @@ def sweep_job(args) -> dict:
             "base": list(base)}
 
 
+UNJUDGED: set[str] = set()
+
+
 def plan_sweeps(tier: str, rnd: random.Random):
     """Jobs for TLC (one per distinct type signature x word position x base) and the sensors they apply to."""
     quick = tier == "quick"
@@ -252,6 +255,9 @@ def plan_sweeps(tier: str, rnd: random.Random):
             e = entry(s)
             ty = e["ty"]
             if ty in ("Calculated", "EnumCalculated"):
+                continue
+            if ty not in KNOWN_TYPES:
+                UNJUDGED.add(f"{fam}.{e['id']}:{ty}")
                 continue
             if quick and (fam, signature(e)) in seen_sig_fam:
                 continue
@@ -269,10 +275,14 @@ def plan_sweeps(tier: str, rnd: random.Random):
                     bases = [bytes(2)]
                 else:
                     bases = [bytes(nb), b"\xff" * nb, bytes([0x80] + [0] * (nb - 1))]
+                if ty == "Float":
+                    # IEEE-754 singles: sweeping one word of 0.0 gives few interesting values; further bases 1001.0 (fractions
+                    # of a Wh in the low word, small exponents in the high word), -20000.5 and 1e6
+                    bases += [bytes.fromhex("447a4000"), bytes.fromhex("c69c4100"), bytes.fromhex("49742400")]
                 positions = list(range(1, nb, 2))
             for bi, base in enumerate(bases):
                 for pos in positions:
-                    if quick and bi > 0 and not (bi == 1 and pos == positions[-1]):
+                    if quick and bi > 0 and not (bi == 1 and pos == positions[-1]) and not (ty == "Float" and bi >= 3):
                         continue        # quick tier: zero base everywhere, 0xFF base only for the last word (sentinel)
                     key = (signature(e), bytes(base), pos)
                     if key not in sig_jobs:
@@ -285,6 +295,9 @@ def plan_sweeps(tier: str, rnd: random.Random):
 
 def run_sweeps(run: Run, tier: str, rnd: random.Random, own: tuple[str, ...]) -> None:
     jobs, labels, work = plan_sweeps(tier, rnd)
+    if UNJUDGED:
+        run.notes.append("NOT JUDGED (sensor classes without a documented meaning in spec/Decode.tla; their values are outside "
+                         "the specification, keys / windows are still checked): " + ", ".join(sorted(UNJUDGED))[:600])
     d = os.path.join(run.workdir, "tables")
     os.makedirs(d, exist_ok=True)
     for k, j in enumerate(jobs):
